@@ -268,8 +268,24 @@ impl<'tcx> Ex<'tcx> {
         // named constants (unevaluated) keep their path
         if let Const::Unevaluated(uv, _) = c.const_ {
             v.push(("cpath", s(self.path(uv.def))));
-            if uv.promoted.is_some() {
+            if let Some(pi) = uv.promoted {
                 v.push(("promoted", J::B(true)));
+                // what the promoted body mentions (named constants, scalars, strings)
+                let mut mentions = Vec::new();
+                if uv.def.is_local() {
+                    let pbodies = tcx.promoted_mir(uv.def);
+                    if let Some(pb) = pbodies.get(pi) {
+                        for bbd in pb.basic_blocks.iter() {
+                            for st in &bbd.statements {
+                                if let StatementKind::Assign(b) = &st.kind {
+                                    let txt = format!("{:?}", b.1);
+                                    mentions.push(s(txt));
+                                }
+                            }
+                        }
+                    }
+                }
+                v.push(("pm", J::A(mentions)));
             }
         }
         let mut txt = format!("{}", c.const_);
